@@ -72,7 +72,7 @@ FocusTable == [
   block    |-> [p |-> <<>>, n |-> 5, m |-> 7, a |-> {"w", "sp", "lf", "-", ":", "?"}],
   indic    |-> [p |-> <<>>, n |-> 3, m |-> 4, a |-> {"&", "*", "!", "|", ">", "'", "dq", "%", "@", "bt", "w", "lf", ".", ":", "sp", "-"}],
   breaks   |-> [p |-> <<>>, n |-> 4, m |-> 4, a |-> {"w", "sp", "lf", "cr", "nel", "ls", "ps", "bom", "np", "tab", ":", "-", "#"}],
-  docs     |-> [p |-> <<>>, n |-> 6, m |-> 7, a |-> {"-", ".", "w", "lf", "sp"}],
+  docs     |-> [p |-> <<>>, n |-> 5, m |-> 7, a |-> {"-", ".", "w", "lf", "sp"}],
   dquote   |-> [p |-> <<"dq">>, n |-> 4, m |-> 5, a |-> {"w", "sp", "lf", "dq", "bs", "n", "-", "tab"}],
   escape   |-> [p |-> <<"dq", "bs">>, n |-> 2, m |-> 3,
                 a |-> {"xc", "uc", "Uc", "0", "1", "h", "a", "X2", "U4", "U4s", "U8", "U8s", "U8big", "U8huge", "dq", "w", "lf",
@@ -85,7 +85,7 @@ FocusTable == [
   tag      |-> [p |-> <<"!">>, n |-> 3, m |-> 4,
                 a |-> {"w", "!", "sp", "lf", "%", "P1", "P2a", "P2b", "Pbad", "<", ">", "tab", ",", "1", "a"}],
   verbatim |-> [p |-> <<"!", "<">>, n |-> 3, m |-> 4, a |-> {"w", "!", "sp", ">", "P1", "P2a", "P2b", "Pbad", "up", "lf", "{", "u"}],
-  literal  |-> [p |-> <<"|">>, n |-> 5, m |-> 6, a |-> {"w", "sp", "lf", "-", "+", "1", "nd"}],
+  literal  |-> [p |-> <<"|">>, n |-> 4, m |-> 6, a |-> {"w", "sp", "lf", "-", "+", "1", "nd"}],
   folded   |-> [p |-> <<">">>, n |-> 3, m |-> 5, a |-> {"w", "sp", "lf", "2", "0", "#", "tab", "cr", "ls"}],
   seqlit   |-> [p |-> <<"-", "sp", "|">>, n |-> 4, m |-> 5, a |-> {"w", "sp", "lf", "1", "nel", "-", ":"}],
   mapblock |-> [p |-> <<"w", ":", "lf">>, n |-> 4, m |-> 5, a |-> {"w", "sp", "lf", ">", "|", "-", ":", "3"}],
@@ -96,7 +96,7 @@ FocusTable == [
   cont     |-> [p |-> <<"w", "lf", "sp">>, n |-> 4, m |-> 5, a |-> {"-", ".", "w", "sp", "lf", ":", "#"}],
   dstruct  |-> [p |-> <<>>, n |-> 3, m |-> 4, a |-> Structural],
   dindic   |-> [p |-> <<>>, n |-> 3, m |-> 4, a |-> {"&", "*", "!", "|", ">", "'", "dq", "%", "@", "w", "lf", ".", "sp"}],
-  pstruct  |-> [p |-> <<>>, n |-> 4, m |-> 5, a |-> Structural],
+  pstruct  |-> [p |-> <<>>, n |-> 3, m |-> 5, a |-> Structural],
   pstruct8 |-> [p |-> <<>>, n |-> 4, m |-> 5, a |-> {"w", "sp", "lf", "-", ":", "[", "]", ","}],
   pblock   |-> [p |-> <<>>, n |-> 4, m |-> 6, a |-> {"w", "sp", "lf", "-", ":", "?"}],
   pflow    |-> [p |-> <<"[">>, n |-> 3, m |-> 4, a |-> {"w", ":", ",", "?", "]", "[", "{", "}", "lf", "sp"}],
